@@ -21,6 +21,7 @@ import (
 
 	ssi "github.com/nuts-foundation/go-did"
 	"github.com/nuts-foundation/go-did/did"
+	"github.com/nuts-foundation/nuts-node/core"
 	"github.com/nuts-foundation/nuts-node/vdr/resolver"
 	"pgregory.net/rapid"
 	"verif.local/h"
@@ -29,6 +30,11 @@ import (
 
 type c17OICase struct {
 	V jose.Variant `json:"v"`
+	// Source is the state of the key source (DID resolution of the statement's kid): "" honest | resolver-fault (resolution
+	// fails with Fault: HTTP status classes of the did.json endpoint as typed core.HttpError, time-outs, cancelled context,
+	// connection errors, not found; wrapped 0..3 times). Absent in older replay files = honest.
+	Source string     `json:"source,omitempty"`
+	Fault  jose.Fault `json:"fault,omitempty"`
 }
 
 const (
@@ -37,14 +43,28 @@ const (
 )
 
 func c17OIGen(t *rapid.T) c17OICase {
-	return c17OICase{V: jose.Gen(t, jose.GenOpts{Near: true, JWKMeta: true})}
+	c := c17OICase{V: jose.Gen(t, jose.GenOpts{Near: true, JWKMeta: true})}
+	if rapid.IntRange(0, 9).Draw(t, "key-source") < 2 {
+		c.Source = "resolver-fault"
+		c.Fault = jose.GenFault(t, "fault")
+	}
+	return c
+}
+
+// c17OIHTTPError is the typed error the node's HTTP clients (did:web resolution included) return for a non-200 answer.
+func c17OIHTTPError(status int) error {
+	return core.TestResponseCode(http.StatusOK, &http.Response{StatusCode: status, Body: io.NopCloser(bytes.NewReader([]byte(`{"error":"verif"}`)))})
 }
 
 type c17OIDIDResolver struct {
 	docs map[string]*did.Document
+	fail error
 }
 
 func (r *c17OIDIDResolver) Resolve(id did.DID, _ *resolver.ResolveMetadata) (*did.Document, *resolver.DocumentMetadata, error) {
+	if r.fail != nil {
+		return nil, nil, r.fail
+	}
 	if d, ok := r.docs[id.String()]; ok {
 		return d, &resolver.DocumentMetadata{}, nil
 	}
@@ -123,6 +143,15 @@ func c17OIRun(x *h.Ctx, c c17OICase) {
 	dids := &c17OIDIDResolver{docs: map[string]*did.Document{}}
 	dids.add(w.Kids[jose.Victim], keys[jose.Victim].Public(), meta)
 	dids.add(w.Kids[jose.Attacker], keys[jose.Attacker].Public(), meta)
+	source := c.Source
+	if source != "resolver-fault" {
+		source = ""
+	} else {
+		if !c.Fault.Is() {
+			c.Fault = jose.Fault{Kind: "generic"}
+		}
+		dids.fail = c.Fault.Err("https://example.com/iam/victim/did.json", c17OIHTTPError, resolver.ErrNotFound)
+	}
 	var obs jose.Observation
 	doer := &c17OIDoer{body: b.Token}
 	client := HTTPClient{strictMode: false, httpClient: doer,
@@ -135,6 +164,23 @@ func c17OIRun(x *h.Ctx, c c17OICase) {
 	if len(doer.urls) != 1 {
 		x.Fatalf("expected one request for the well-known document, got %q", doer.urls)
 	}
+	if source != "" {
+		// fail closed: while DID resolution cannot deliver the key the kid names, no statement is accepted
+		label := source + ":" + c.Fault.Kind
+		vd := jose.Truth(w, b.F)
+		x.Classf("source:%s:accepted=%v", label, obs.Accepted)
+		x.Classf("source-failure:%s:token-%s:key-asked=%v", source, map[bool]string{true: "must-reject-anyway", false: "otherwise-acceptable"}[vd.MustReject], len(obs.KidsAsked) > 0)
+		x.Class("t:" + c.V.T)
+		if b.F.Parses {
+			x.NonTrivial()
+		}
+		if obs.Accepted {
+			x.Violate("C17:openidconfig:accepted:key-source-"+label, "entity statement accepted although the key source was %q (fault %+v, template %s, token verdict %q); key ids asked: %q; token=%s",
+				source, c.Fault, c.V.T, vd.Reason, obs.KidsAsked, b.Token)
+		}
+		return
+	}
+	x.Class("source:honest")
 	fs, classes, nt := jose.Judge("openidconfig", w, c.V, b, obs)
 	for _, f := range fs {
 		x.Violate(f.Sig, "%s", f.Msg)
